@@ -87,6 +87,11 @@ def body():
         for b in behs:
             b["trials"] = 2 if thorough else 1
         rng.shuffle(behs)
+        # a quarter of the certificates are judged as the *retry* of an InError certificate: nothing changed in between / the node
+        # restarted with another signing key / an L2 reorg changed a bridge of the range (the first attempt runs unrecorded)
+        for b in behs:
+            if rng.random() < 0.25:
+                b["retry"] = rng.choice(["same", "signer", "content"])
         rb = V.replay_behaviours()
         if rb is not None:
             behs = rb
@@ -234,7 +239,7 @@ def body():
             rule="evaluations = field observations on the wire + single-field perturbations executed on re-assembled wire certificates; "
                  "distinct non-trivial = executed perturbations of fields the matrix lists as covered (each must change the commitment "
                  "or the identity, by the code's function and by the reference), counted from the trace",
-            certificates=dict(total=len(behs), completed=len(ok), refused_by_code=len(errs), tlc_shapes=n_tlc, distinct_shapes_completed=len(shapes_done),
+            certificates=dict(total=len(behs), completed=len(ok), refused_by_code=len(errs), retries=sum(1 for b in behs if b.get("retry")), tlc_shapes=n_tlc, distinct_shapes_completed=len(shapes_done),
                               pp=sum(1 for b in behs if b["scheme"] == "pp"), fep=sum(1 for b in behs if b["scheme"] == "fep")),
             field_observations_wire=n_fields, perturbations_executed=n_pert, perturbations_of_covered_fields=n_pert_cov,
             classes_seen={k: sorted(map(str, v)) for k, v in cls_seen.items() if k != "gi"}, global_index_classes_seen=len(cls_seen["gi"]),
